@@ -11,6 +11,7 @@ import importlib
 import json
 import multiprocessing
 import os
+import pickle
 import subprocess
 import sys
 import time
@@ -71,57 +72,251 @@ def violates(res, prop):
     return v is not None and prop in v['props']
 
 
-def _worker_chunk(args):
+def in_child(fn, *args):
+    """Run fn(*args) in a forked child and return its (picklable) result.
+
+    Every chunk of runs executes in its own child of a process that has only
+    imported desper and installed the seams, so that the state a chunk starts
+    from is exactly the state of a fresh interpreter: a violation that depends
+    on process-global state left behind by *earlier runs* is then a function
+    of (seed, chunk indices) and replays (see history_minimise)."""
+    r, w = os.pipe()
+    pid = os.fork()
+    if pid == 0:
+        try:
+            os.close(r)
+            try:
+                out = ('ok', fn(*args))
+            except BaseException:
+                out = ('err', traceback.format_exc())
+            with os.fdopen(w, 'wb') as f:
+                pickle.dump(out, f)
+                f.flush()
+        finally:
+            os._exit(0)
+    os.close(w)
+    with os.fdopen(r, 'rb') as f:
+        data = f.read()
+    os.waitpid(pid, 0)
+    if not data:
+        raise RuntimeError('child process died without a result')
+    tag, val = pickle.loads(data)
+    if tag == 'err':
+        raise RuntimeError(val)
+    return val
+
+
+def step_index(engine, prop, verif_seed, i, tier, tolerate, agg,
+               want_samples=False, executed=None):
+    """Generate and execute run number i. Returns None, or a dict with one of
+    'harness_error', 'nondeterminism', 'violating' (scenario, result)."""
+    rs = kernel.run_seed_for(verif_seed, prop, i)
+    out = None
+    try:
+        scenarios = engine.generate(prop, rs, tier=tier,
+                                    tolerate=frozenset(tolerate))
+    except Exception:
+        return {'harness_error': 'generate: ' + traceback.format_exc()}
+    if isinstance(scenarios, dict):
+        scenarios = [scenarios]
+    for sc in scenarios:
+        sc.setdefault('property', prop)
+        sc.setdefault('run_index', i)
+        sc.setdefault('verif_seed', verif_seed)
+        sc.setdefault('run_seed', rs)
+        if executed is not None:
+            executed.append(copy.deepcopy(sc))
+        try:
+            res = run_one(engine, sc, prop, tolerate)
+        except Exception:
+            return {'harness_error': 'execute: ' + traceback.format_exc()
+                    + '\nscenario: ' + json.dumps(sc)[:4000]}
+        absorb(agg, res, sc, want_samples)
+        if violates(res, prop):
+            return {'violating': (sc, res)}
+        elif res.get('violation') is not None:
+            agg['foreign_abort'] += 1
+            if os.environ.get('VERIF_DEBUG_FOREIGN'):
+                print('FOREIGN', json.dumps(res['violation']),
+                      json.dumps({k: sc[k] for k in ('ops', 'scripts')}),
+                      flush=True)
+        # in-run determinism spot check (2 %)
+        if kernel.h64('recheck', rs) % 50 == 0:
+            if executed is not None:
+                executed.append(copy.deepcopy(sc))
+            res2 = run_one(engine, copy.deepcopy(sc), prop, tolerate)
+            agg['rechecked'] += 1
+            if res2['digest'] != res['digest'] and out is None:
+                out = {'nondeterminism': sc}
+    if i % 64 == 63:
+        gc.collect()
+    return out
+
+
+def _chunk_body(args):
     (prop, verif_seed, indices, tolerate, tier, want_samples) = args
     faulthandler.dump_traceback_later(600, exit=True)
     engine = engine_for(prop)
     agg = new_agg()
     found = None
+    nondet = None
     t0 = time.time()
+    done = []
     for i in indices:
-        rs = kernel.run_seed_for(verif_seed, prop, i)
-        try:
-            scenarios = engine.generate(prop, rs, tier=tier,
-                                        tolerate=frozenset(tolerate))
-        except Exception:
-            return {'harness_error': 'generate: ' + traceback.format_exc(),
-                    'agg': agg}
-        if isinstance(scenarios, dict):
-            scenarios = [scenarios]
-        for sc in scenarios:
-            sc.setdefault('property', prop)
-            sc.setdefault('run_index', i)
-            sc.setdefault('verif_seed', verif_seed)
-            sc.setdefault('run_seed', rs)
-            try:
-                res = run_one(engine, sc, prop, tolerate)
-            except Exception:
-                return {'harness_error': 'execute: ' + traceback.format_exc()
-                        + '\nscenario: ' + json.dumps(sc)[:4000], 'agg': agg}
-            absorb(agg, res, sc, want_samples)
-            # in-run determinism spot check (2 %)
-            if kernel.h64('recheck', rs) % 50 == 0:
-                res2 = run_one(engine, copy.deepcopy(sc), prop, tolerate)
-                agg['rechecked'] += 1
-                if res2['digest'] != res['digest']:
-                    return {'nondeterminism': sc, 'agg': agg}
-            if violates(res, prop):
-                found = minimise(engine, sc, res, prop, tolerate)
-                break
-            elif res.get('violation') is not None:
-                agg['foreign_abort'] += 1
-                if os.environ.get('VERIF_DEBUG_FOREIGN'):
-                    print('FOREIGN', json.dumps(res['violation']),
-                          json.dumps({k: sc[k] for k in ('ops', 'scripts')}),
-                          flush=True)
-        if found:
+        done.append(i)
+        r = step_index(engine, prop, verif_seed, i, tier, tolerate, agg,
+                       want_samples)
+        if r is None:
+            continue
+        if 'harness_error' in r:
+            return {'harness_error': r['harness_error'], 'agg': agg}
+        if 'nondeterminism' in r:
+            nondet = nondet or r['nondeterminism']
+        if 'violating' in r:
+            sc, res = r['violating']
+            found = minimise(engine, sc, res, prop, tolerate)
+            found['chunk'] = {'verif_seed': verif_seed, 'tier': tier,
+                              'indices': list(done),
+                              'kind': res['violation']['kind']}
             break
-        if i % 64 == 63:
-            gc.collect()
     gc.collect()
     agg['wall'] = time.time() - t0
     faulthandler.cancel_dump_traceback_later()
-    return {'agg': agg, 'found': found}
+    out = {'agg': agg, 'found': found}
+    if nondet is not None and found is None:
+        out['nondeterminism'] = nondet
+    return out
+
+
+def _worker_chunk(args):
+    return in_child(_chunk_body, args)
+
+
+# --------------------------------------------------------------------------
+# violations that depend on what earlier runs left behind in the process
+
+def run_history(prop, tolerate, hist, final=None):
+    """Execute a history in this process: the runs hist['indices'] (generated
+    from their seeds and executed, rechecks included, exactly as a chunk does),
+    then the explicit scenarios hist['prelude'], then the run expected to
+    violate: run number hist['last'] when given, else the scenario `final`.
+    Returns (violating result | None, executed scenarios, final scenario)."""
+    engine = engine_for(prop)
+    agg = new_agg()
+    executed = []
+    for i in hist.get('indices', []):
+        step_index(engine, prop, hist['verif_seed'], i, hist['tier'],
+                   tolerate, agg, executed=executed)
+    for sc in hist.get('prelude', []):
+        try:
+            run_one(engine, copy.deepcopy(sc), prop, tolerate)
+        except Exception:
+            pass
+    if hist.get('last') is not None:
+        r = step_index(engine, prop, hist['verif_seed'], hist['last'],
+                       hist['tier'], tolerate, agg, executed=[])
+        if r and 'violating' in r:
+            return r['violating'][1], executed, r['violating'][0]
+        return None, executed, None
+    res = run_one(engine, copy.deepcopy(final), prop, tolerate)
+    return (res if violates(res, prop) else None), executed, final
+
+
+def history_minimise(prop, found, tolerate, budget_s=60):
+    """`found` did not replay on its own in a fresh interpreter. Re-run the
+    chunk it came from (forked children of this process, which has executed
+    nothing), keep the shortest history of earlier runs after which it still
+    fails, make that history explicit and shrink it. Returns a replay dict or
+    None when even the whole chunk does not reproduce the violation."""
+    ch = found.get('chunk')
+    if not ch:
+        return None
+    kind = ch['kind']
+    t_end = time.time() + budget_s
+
+    def probe(hist, final=None):
+        def body():
+            res, executed, fin = run_history(prop, tolerate, hist, final)
+            if res is None or res['violation']['kind'] != kind:
+                return None
+            return {'res': {'violation': res['violation'],
+                            'digest': res['digest'],
+                            'trace_tail': res.get('trace_tail', [])},
+                    'executed': executed, 'final': fin}
+        try:
+            return in_child(body)
+        except Exception:
+            return None
+
+    base = {'verif_seed': ch['verif_seed'], 'tier': ch['tier']}
+    idx = list(ch['indices'])
+    got = probe(dict(base, indices=idx[:-1], last=idx[-1]))
+    if got is None:
+        return None
+    # 1. fewest earlier runs (the last index is the failing run): ddmin
+    pre, last = idx[:-1], idx[-1]
+    n = 2
+    while len(pre) >= 1 and time.time() < t_end:
+        size = max(1, len(pre) // n)
+        for k in range(0, len(pre), size):
+            cand = pre[:k] + pre[k + size:]
+            g = probe(dict(base, indices=cand, last=last))
+            if g is not None:
+                pre, got, n = cand, g, max(n - 1, 2)
+                break
+        else:
+            if size == 1:
+                break
+            n = min(len(pre), n * 2)
+    hist = dict(base, indices=pre, last=last)
+    final = got['final']
+    # 2. explicit scenarios instead of run numbers, when that still fails
+    g = probe(dict(base, indices=[], prelude=got['executed']), final)
+    if g is not None:
+        prelude = got['executed']
+        got = g
+
+        def fails_pre(cand_prelude, cand_final=final):
+            if time.time() > t_end:
+                return False
+            return probe(dict(base, indices=[], prelude=cand_prelude),
+                         cand_final) is not None
+        # drop whole prelude scenarios
+        k = 0
+        while k < len(prelude):
+            cand = prelude[:k] + prelude[k + 1:]
+            if fails_pre(cand):
+                prelude = cand
+            else:
+                k += 1
+        engine = engine_for(prop)
+        simp = getattr(engine, 'simplify', None)
+        # shrink each remaining prelude scenario, then the final one
+        for k in range(len(prelude)):
+            prelude[k] = shrinker.shrink(
+                prelude[k],
+                lambda c, k=k: fails_pre(prelude[:k] + [c] + prelude[k + 1:]),
+                simp)
+        final = shrinker.shrink(final, lambda c: fails_pre(prelude, c), simp)
+        hist = dict(base, indices=[], prelude=prelude)
+        got = probe(hist, final) or got
+        if probe(hist, final) is None:       # shrinking went wrong: undo
+            hist = dict(base, indices=[], prelude=g['executed'])
+            final = g['final']
+            got = g
+    out = copy.deepcopy(final)
+    out['history'] = hist
+    out['tolerate'] = sorted(tolerate)
+    out['expect'] = {'property': prop, 'kind': got['res']['violation']['kind'],
+                     'digest': got['res']['digest'],
+                     'detail': got['res']['violation']['detail'],
+                     'op': got['res']['violation'].get('op'),
+                     'note': 'fails only after the recorded history of '
+                             'earlier runs in the same process (state leaked '
+                             'between runs)'}
+    out['trace_tail'] = got['res'].get('trace_tail', [])
+    out.pop('chunk', None)
+    return out
 
 
 def minimise(engine, sc, res, prop, tolerate):
@@ -226,7 +421,16 @@ def replay_file(path, quiet=False):
         sc = json.load(f)
     prop = sc.get('expect', {}).get('property', sc.get('property'))
     engine = engine_for(prop)
-    res = run_one(engine, sc, prop, sc.get('tolerate', []))
+    if sc.get('history'):
+        kernel.install_seams()
+        hist = sc.pop('history')
+        final = {k: v for k, v in sc.items()
+                 if k not in ('expect', 'trace_tail', 'tolerate')}
+        res, _, _ = run_history(prop, sc.get('tolerate', []), hist, final)
+        if res is None:
+            res = {'violation': None, 'digest': None}
+    else:
+        res = run_one(engine, sc, prop, sc.get('tolerate', []))
     exp = sc.get('expect')
     v = res.get('violation')
     out = {'property': prop, 'violation': v, 'digest': res['digest'],
@@ -308,8 +512,12 @@ def check(prop, tier, verif_seed, budget_s=None, jobs=None, max_runs=None,
     known = load_known()
     tolerate = open_ids(known)
     engine = engine_for(prop)
-    lines = []
-    code = run_canonical(prop, known, lines)
+    kernel.install_seams()      # import desper here: children fork from this
+
+    def canon():
+        out = []
+        return run_canonical(prop, known, out), out
+    code, lines = in_child(canon)
     for ln in lines:
         print(ln, flush=True)
     if budget_s is None:
@@ -321,10 +529,11 @@ def check(prop, tier, verif_seed, budget_s=None, jobs=None, max_runs=None,
     if jobs is None:
         jobs = int(os.environ.get('VERIF_JOBS',
                                   min(16, os.cpu_count() or 1)))
-    chunk = int(os.environ.get('VERIF_CHUNK', 40))
+    chunk = int(os.environ.get('VERIF_CHUNK', 120))
     agg = new_agg()
     found = None
     harness = None
+    nondet = None
     next_index = 0
     deadline = t0 + budget_s
     ctx = multiprocessing.get_context('fork')
@@ -361,10 +570,11 @@ def check(prop, tier, verif_seed, budget_s=None, jobs=None, max_runs=None,
                 merge(agg, r['agg'])
                 if r.get('harness_error'):
                     harness = r['harness_error']
-                if r.get('nondeterminism'):
-                    harness = ('HARNESS-NONDETERMINISM: same scenario, two '
-                               'digests: ' + json.dumps(
-                                   r['nondeterminism'])[:2000])
+                if r.get('nondeterminism') and nondet is None:
+                    # not a verdict; a violation found later takes precedence
+                    nondet = ('HARNESS-NONDETERMINISM: same scenario, two '
+                              'digests: ' + json.dumps(
+                                  r['nondeterminism'])[:2000])
                 if r.get('found') and found is None:
                     found = r['found']
             if found or harness:
@@ -383,6 +593,19 @@ def check(prop, tier, verif_seed, budget_s=None, jobs=None, max_runs=None,
         name = f'{prop}-{found["run_seed"]}.json'
         path = write_replay(found, name)
         rc, outp = replay_fresh(path)
+        if rc != 1:
+            # does it fail only after what earlier runs left in the process?
+            hist = history_minimise(prop, found, tolerate)
+            if hist is not None:
+                path2 = write_replay(
+                    hist, f'{prop}-{found["run_seed"]}-history.json')
+                rc2, outp2 = replay_fresh(path2)
+                if rc2 == 1:
+                    os.remove(path)
+                    path, rc, outp, found = path2, rc2, outp2, hist
+                else:
+                    outp += '\n(history replay: exit %s)\n%s' % (
+                        rc2, outp2[-800:])
         if rc == 1:
             print(f'violation: {json.dumps(found["expect"])}')
             print(f'VIOLATION property={prop} replay={path}', flush=True)
@@ -391,6 +614,8 @@ def check(prop, tier, verif_seed, budget_s=None, jobs=None, max_runs=None,
             print(f'HARNESS-NONDETERMINISM: replay of {path} in a fresh '
                   f'interpreter gave exit {rc}\n{outp[-1500:]}')
             code = 2
+    if harness is None and nondet is not None and found is None:
+        harness = nondet
     if harness:
         print('HARNESS-ERROR:', harness, flush=True)
         code = 3 if 'TIMEOUT' in harness else 2
